@@ -105,6 +105,131 @@ Lemma combine_map : forall {A B C : Type} (f : A -> B) (g : A -> C) l,
   combine (map f l) (map g l) = map (fun x => (f x, g x)) l.
 Proof. induction l; simpl; auto. rewrite IHl; auto. Qed.
 
+(* ---- what the BFT parameter queries return *)
+Lemma params_le_spec : forall s h best,
+  (forall kb pb, best = Some (kb, pb) -> kb <= h) ->
+  match params_le s h best with
+  | None => best = None /\ forall k p, In (k, p) s -> h < k
+  | Some (k, p) => k <= h /\ (In (k, p) s \/ best = Some (k, p)) /\
+                   (forall k' p', In (k', p') s -> k' <= h -> k' <= k) /\
+                   (forall kb pb, best = Some (kb, pb) -> kb <= k)
+  end.
+Proof.
+  induction s as [|[k p] s]; intros h best Hb; simpl.
+  - destruct best as [[kb pb]|].
+    + split; [apply (Hb kb pb); auto|]. split; [right; auto|]. split; [intros k' p' []|].
+      intros kb' pb' E. inversion E; subst. apply N.le_refl.
+    + split; auto. intros k p [].
+  - destruct (k <=? h) eqn:A.
+    + apply N.leb_le in A. destruct best as [[kb pb]|].
+      * destruct (kb <? k) eqn:B.
+        -- apply N.ltb_lt in B. specialize (IHs h (Some (k, p))).
+           destruct (params_le s h (Some (k, p))) as [[k1 p1]|].
+           ++ destruct IHs as [I1 [I2 [I3 I4]]]. { intros ? ? E; inversion E; subst; auto. }
+              repeat split; auto.
+              ** destruct I2 as [I2|I2]; [left; right; auto | inversion I2; subst; left; left; auto].
+              ** intros k' p' [E|Hin] Hle; [inversion E; subst; apply (I4 k' p'); auto | eauto].
+              ** intros kb' pb' E. inversion E; subst. specialize (I4 k p eq_refl). lia.
+           ++ destruct IHs as [I1 _]. { intros ? ? E; inversion E; subst; auto. } discriminate.
+        -- apply N.ltb_ge in B. specialize (IHs h (Some (kb, pb)) Hb).
+           destruct (params_le s h (Some (kb, pb))) as [[k1 p1]|].
+           ++ destruct IHs as [I1 [I2 [I3 I4]]]. repeat split; auto.
+              ** destruct I2 as [I2|I2]; [left; right; auto | right; auto].
+              ** intros k' p' [E|Hin] Hle; [inversion E; subst; specialize (I4 kb pb eq_refl); lia | eauto].
+           ++ destruct IHs as [I1 _]. discriminate.
+      * specialize (IHs h (Some (k, p))).
+        destruct (params_le s h (Some (k, p))) as [[k1 p1]|].
+        -- destruct IHs as [I1 [I2 [I3 I4]]]. { intros ? ? E; inversion E; subst; auto. }
+           repeat split; auto.
+           ++ destruct I2 as [I2|I2]; [left; right; auto | inversion I2; subst; left; left; auto].
+           ++ intros k' p' [E|Hin] Hle; [inversion E; subst; apply (I4 k' p'); auto | eauto].
+           ++ intros ? ? E. discriminate.
+        -- destruct IHs as [I1 _]. { intros ? ? E; inversion E; subst; auto. } discriminate.
+    + apply N.leb_gt in A. specialize (IHs h best Hb).
+      destruct (params_le s h best) as [[k1 p1]|].
+      * destruct IHs as [I1 [I2 [I3 I4]]]. repeat split; auto.
+        -- destruct I2; auto.
+        -- intros k' p' [E|Hin] Hle; [inversion E; subst; lia | eauto].
+      * destruct IHs as [I1 I2]. split; auto. intros k' p' [E|Hin]; [inversion E; subst; auto | eauto].
+Qed.
+
+(* GetBFTParameters(h): the entry of the parameter store with the greatest key <= h (none if every key is above h) *)
+Theorem get_params_spec : forall e h,
+  match get_params e h with
+  | Some p => exists k, In (k, p) (e_params e) /\ k <= h /\ forall k' p', In (k', p') (e_params e) -> k' <= h -> k' <= k
+  | None => forall k p, In (k, p) (e_params e) -> h < k
+  end.
+Proof.
+  intros e h. unfold get_params.
+  pose proof (params_le_spec (e_params e) h None) as H.
+  destruct (params_le (e_params e) h None) as [[k p]|].
+  - destruct H as [H1 [H2 [H3 _]]]. { intros ? ? E; discriminate. }
+    exists k. destruct H2 as [H2|H2]; [|discriminate]. auto.
+  - destruct H as [_ H]. { intros ? ? E; discriminate. } auto.
+Qed.
+
+Lemma params_ge_spec : forall s lo best,
+  (forall kb, best = Some kb -> lo <= kb) ->
+  match params_ge s lo best with
+  | None => best = None /\ forall k p, In (k, p) s -> k < lo
+  | Some k => lo <= k /\ ((exists p, In (k, p) s) \/ best = Some k) /\
+              (forall k' p', In (k', p') s -> lo <= k' -> k <= k') /\ (forall kb, best = Some kb -> k <= kb)
+  end.
+Proof.
+  induction s as [|[k p] s]; intros lo best Hb; simpl.
+  - destruct best as [kb|].
+    + split; [apply (Hb kb); auto|]. split; [right; auto|]. split; [intros k' p' []|].
+      intros ? E; inversion E; subst; apply N.le_refl.
+    + split; auto. intros k p [].
+  - destruct (lo <=? k) eqn:A.
+    + apply N.leb_le in A. destruct best as [kb|].
+      * destruct (k <? kb) eqn:B.
+        -- apply N.ltb_lt in B. specialize (IHs lo (Some k)).
+           destruct (params_ge s lo (Some k)) as [k1|].
+           ++ destruct IHs as [I1 [I2 [I3 I4]]]. { intros ? E; inversion E; subst; auto. }
+              repeat split; auto.
+              ** destruct I2 as [[p1 I2]|I2]; [left; exists p1; right; auto | inversion I2; subst; left; exists p; left; auto].
+              ** intros k' p' [E|Hin] Hle; [inversion E; subst; apply (I4 k'); auto | eauto].
+              ** intros ? E. inversion E; subst. specialize (I4 k eq_refl). lia.
+           ++ destruct IHs as [I1 _]. { intros ? E; inversion E; subst; auto. } discriminate.
+        -- apply N.ltb_ge in B. specialize (IHs lo (Some kb) Hb).
+           destruct (params_ge s lo (Some kb)) as [k1|].
+           ++ destruct IHs as [I1 [I2 [I3 I4]]]. repeat split; auto.
+              ** destruct I2 as [[p1 I2]|I2]; [left; exists p1; right; auto | right; auto].
+              ** intros k' p' [E|Hin] Hle; [inversion E; subst; specialize (I4 kb eq_refl); lia | eauto].
+           ++ destruct IHs as [I1 _]. discriminate.
+      * specialize (IHs lo (Some k)).
+        destruct (params_ge s lo (Some k)) as [k1|].
+        -- destruct IHs as [I1 [I2 [I3 I4]]]. { intros ? E; inversion E; subst; auto. }
+           repeat split; auto.
+           ++ destruct I2 as [[p1 I2]|I2]; [left; exists p1; right; auto | inversion I2; subst; left; exists p; left; auto].
+           ++ intros k' p' [E|Hin] Hle; [inversion E; subst; apply (I4 k'); auto | eauto].
+           ++ intros ? E. discriminate.
+        -- destruct IHs as [I1 _]. { intros ? E; inversion E; subst; auto. } discriminate.
+    + apply N.leb_gt in A. specialize (IHs lo best Hb).
+      destruct (params_ge s lo best) as [k1|].
+      * destruct IHs as [I1 [I2 [I3 I4]]]. repeat split; auto.
+        -- destruct I2 as [[p1 I2]|I2]; [left; exists p1; right; auto | right; auto].
+        -- intros k' p' [E|Hin] Hle; [inversion E; subst; lia | eauto].
+      * destruct IHs as [I1 I2]. split; auto. intros k' p' [E|Hin]; [inversion E; subst; auto | eauto].
+Qed.
+
+(* NextHeightBFTParameters(x): the least key of the parameter store that is >= uint32(x+1) *)
+Theorem next_params_spec : forall e x,
+  match next_params e x with
+  | Some k => u32 (x + 1) <= k /\ (exists p, In (k, p) (e_params e)) /\
+              forall k' p', In (k', p') (e_params e) -> u32 (x + 1) <= k' -> k <= k'
+  | None => forall k p, In (k, p) (e_params e) -> k < u32 (x + 1)
+  end.
+Proof.
+  intros e x. unfold next_params.
+  pose proof (params_ge_spec (e_params e) (u32 (x + 1)) None) as H.
+  destruct (params_ge (e_params e) (u32 (x + 1)) None) as [k|].
+  - destruct H as [H1 [H2 [H3 _]]]. { intros ? E; discriminate. }
+    destruct H2 as [H2|H2]; [|discriminate]. auto.
+  - destruct H as [_ H]. { intros ? E; discriminate. } auto.
+Qed.
+
 Section Sound.
   Variables (sigT msgT : Type).
   Variable sig_len0 : sigT -> bool.
